@@ -127,11 +127,11 @@ def run_driver_sharded(ctx, binary, cases, tag, shards, extra=None, timeout=3000
     return records, incidents
 
 
-def tlc_parallel(ctx, jobs):
+def tlc_parallel(ctx, jobs, width=None):
     """jobs = [(kwargs for ctx.tlc)], run concurrently; state counts are added afterwards (ctx is not thread safe)"""
     from concurrent.futures import ThreadPoolExecutor
     counted = [j.pop("count", True) for j in jobs]
-    with ThreadPoolExecutor(max_workers=len(jobs)) as ex:
+    with ThreadPoolExecutor(max_workers=width or len(jobs)) as ex:
         futs = [ex.submit(lambda kw: ctx.tlc(count=False, **kw), j) for j in jobs]
         res = [f.result() for f in futs]
     for r, c in zip(res, counted):
@@ -474,7 +474,7 @@ def must(r, what):
 def generate(ctx, quick):
     """model checking + generation (one TLC run per configuration, concurrently)"""
     sfx = "" if quick else "_thorough"
-    num = 1500 if quick else 20000
+    num = 1500 if quick else 12000
     jobs = [
         dict(spec_dirs="core", module="Gen_GQLGrammar", cfg="Gen_GQLGrammar_const.cfg", timeout=300, workers=1, count=False, tag="spec-constants"),
         dict(spec_dirs="core", module="MC_GQLGrammar", cfg="MC_GQLGrammar_pinned.cfg", timeout=900, deadlock=False, workers=2, count=False,
@@ -516,8 +516,10 @@ def generate(ctx, quick):
     return consts, list(uniq.values()), runs
 
 
-def validate(ctx, trace, shards):
-    """TLC trace validation of the observations, in `shards` independent pieces (each starts at a doc line)."""
+def validate(ctx, trace):
+    """TLC trace validation of the observations, in independent pieces of <= ~25 000 lines (each starts at a doc line),
+    at most 4 TLC processes at a time."""
+    shards = max(3, (len(trace) + 24999) // 25000)
     starts = [i for i, t in enumerate(trace) if t["k"] in ("doc", "enum")]
     cuts = [0]
     for k in range(1, shards):
@@ -533,8 +535,8 @@ def validate(ctx, trace, shards):
         lib.write_ndjson(tp, part)
         offs.append(cuts[k])
         jobs.append(dict(spec_dirs="core", module="Trace_GQLGrammar", cfg="Trace_GQLGrammar.cfg", workers=1, env={"TRACE": tp}, timeout=3000,
-                         deadlock=False, count=False, tag="trace-validation-%d" % k, heap="6g"))
-    res = tlc_parallel(ctx, jobs)
+                         deadlock=False, count=False, tag="trace-validation-%d" % k, heap="4g"))
+    res = tlc_parallel(ctx, jobs, width=4)
     unsound, disagree = [], []
     for off, v in zip(offs, res):
         if not v.ok:
@@ -743,7 +745,7 @@ def run(ctx):
     judge.flush()
 
     # ---- 6. TLC validation -------------------------------------------------------------------------
-    unsound, disagree = validate(ctx, trace, 3 if quick else 8)
+    unsound, disagree = validate(ctx, trace)
     seen = set()
     for u in unsound:
         i, lr = line_of[u["line"]]
